@@ -186,6 +186,14 @@ func runC18(c *mon.Ctx) {
 				if ksp == nil || i%(G*50) == g {
 					ksp = NewKeyedSP(now, KeyCfg{EncField: true, SignSetter: true, ECSetter: true})
 					ksp.SP.SignAuthnRequests = true
+					if (i/(G*50))%3 == 1 {
+						// an application that also signs its own documents with the provider's signing context tunes it:
+						// the messages still carry their identifier in the schema's ID attribute
+						if ctx := ksp.SP.SigningContext(); ctx != nil {
+							ctx.IdAttribute = "Id"
+							ctx.Prefix = "dsig"
+						}
+					}
 				}
 				sp := ksp.SP
 				ki := (i / G) % len(kinds)
@@ -306,6 +314,60 @@ func runC18(c *mon.Ctx) {
 		spy.fail.Store(0)
 	}
 
+	// phase 6: signing fails now and then (the signing device is unavailable). The application keeps using the unsigned
+	// document it had built, or drops it; either way no later message may carry an identifier that was already handed out
+	var afterFailure []string
+	discardedBuilds := 0
+	{
+		spy := &SpySigner{K: sim.K("spsign")}
+		sp, _, _ := NewSP(BaseTime(c.Seed))
+		sp.SignAuthnRequests = true
+		sp.SetSPSigningKeyStore(&saml2.KeyStore{Signer: spy, Cert: sim.Wide(sim.K("spsign"), BaseTime(c.Seed)).DER})
+		idOf := func(d *etree.Document, err error) {
+			if err == nil && d != nil && d.Root() != nil {
+				afterFailure = append(afterFailure, d.Root().SelectAttrValue("ID", ""))
+			} else {
+				discardedBuilds++ // a build that failed after drawing its identifier: that draw is legitimately never seen
+			}
+		}
+		for round := 0; round < c.N(30, 300); round++ {
+			var d *etree.Document
+			var err error
+			switch round % 3 {
+			case 0:
+				d, err = sp.BuildAuthRequestDocumentNoSig()
+			case 1:
+				d, err = sp.BuildLogoutRequestDocumentNoSig("u", "s")
+			default:
+				d, err = sp.BuildLogoutResponseDocumentNoSig(saml2.StatusCodeSuccess, "_r")
+			}
+			idOf(d, err)
+			if err != nil || d == nil {
+				continue
+			}
+			spy.Fail.Store(true)
+			mon.Guard(func() {
+				switch round % 3 {
+				case 0:
+					sp.SignAuthnRequest(d.Root())
+				case 1:
+					sp.SignLogoutRequest(d.Root())
+				default:
+					sp.SignLogoutResponse(d.Root())
+				}
+				// the signed builders fail as a whole while the device is down
+				idOf(sp.BuildAuthRequestDocument())
+				idOf(sp.BuildLogoutRequestDocument("u", "s"))
+				idOf(sp.BuildLogoutResponseDocument(saml2.StatusCodeSuccess, "_r"))
+			})
+			spy.Fail.Store(false)
+			idOf(sp.BuildLogoutRequestDocumentNoSig("u", "s"))
+			idOf(sp.BuildAuthRequestDocument())
+			idOf(sp.BuildLogoutResponseDocumentNoSig(saml2.StatusCodeSuccess, "_r"))
+			idOf(sp.BuildAuthRequestDocumentNoSig())
+		}
+	}
+
 	// ---- oracle over the recorded events ----
 	cs := c.Begin("identifiers", 0)
 	if cs == nil {
@@ -358,6 +420,14 @@ func runC18(c *mon.Ctx) {
 		check(s, true)
 	}
 	c.Count("identifiers_from_copied_providers", int64(len(copyCols[0].ids)))
+	for _, id := range afterFailure {
+		if !strings.HasPrefix(id, "_") {
+			cs.Violation("identifier-format", "message ID %q built around a signing failure does not start with an underscore", id)
+			continue
+		}
+		check(id[1:], true)
+	}
+	c.Count("identifiers_around_signing_failures", int64(len(afterFailure)))
 	// short-read phase: identifier i must be the masked bytes [16i, 16i+16) of what the source delivered
 	if len(spy.stream) != 16*len(shortIDs) {
 		cs.Violation("short-read-accounting", "with a source delivering short reads uuid.NewV4 consumed %d bytes for %d identifiers", len(spy.stream), len(shortIDs))
@@ -391,7 +461,7 @@ func runC18(c *mon.Ctx) {
 	for _, n := range spy.uuidRds {
 		left += n
 	}
-	if int(spy.inUUID.Load()) != total || left != 0 {
+	if unmatched := int(spy.inUUID.Load()) - total; unmatched < 0 || unmatched > discardedBuilds || left != unmatched {
 		if len(c.Violations()) == 0 {
 			cs.Violation("read-accounting", "uuid.NewV4 made %d 16-byte reads for %d identifiers (%d reads unmatched)", spy.inUUID.Load(), total, left)
 		}
